@@ -13,6 +13,7 @@ TRUSTED = ["A-DT: aware datetimes subtract/compare as UTC instants; timedelta.da
            "A-ANNOT: type annotations are truthful (repo ships strict mypy)", "int(str) is a total-or-ValueError function",
            "os.environ.get returns the variable or None", "AbstractCountry.__init__ (pycountry lookup) assumed: stores the two ISO codes or raises"]
 ASSUMPTIONS = TRUSTED
+E2E = {"quick": 60, "thorough": 2000, "on_doubt": 400}
 
 COUNTRIES = ["rp2.plugin.country.us.US", "rp2.plugin.country.es.ES", "rp2.plugin.country.jp.JP", "rp2.plugin.country.ie.IE",
              "rp2.plugin.country.generic.Generic"]
